@@ -83,8 +83,9 @@ Definition model_ok (c : case) : bool := model_steps_ok (ckeys c) empty_store (c
 Fixpoint model_trace (keys : list bytes) (s : store) (sts : list stp) : list (N * list (list bytes)) :=
   match sts with
   | [] => []
-  | st :: r => let '(_, s1) := model_step_ok keys s st in
-               (snd (model_step msort s (sop st)), map (fun k => fst (rdb_for_each s1 k)) keys) :: model_trace keys s1 r
+  | st :: r => let '(sm, e) := model_step msort s (sop st) in     (* the model's own result, stable sort *)
+               let '(_, s1) := model_step_ok keys s st in          (* goes on from the observed order *)
+               (e, map (fun k => fst (rdb_for_each sm k)) keys) :: model_trace keys s1 r
   end.
 Definition model_out (c : case) := model_trace (ckeys c) empty_store (csteps c).
 
